@@ -156,10 +156,13 @@ PROPS = {
             "no other message type makes step emit a grant",
             "RaftLog::is_up_to_date / last_term / last_index equal the model (C14)",
             "maybe_commit_by_vote moves the commit index only through RaftLog::maybe_commit (term of that index must match) and keeps term and vote",
+            "campaign / poll: every (pre-)vote request advertises the candidate's own (last_index, last_term, commit); a candidate counts only MsgRequestVoteResponse and a pre-candidate only "
+            "MsgRequestPreVoteResponse (a response of the other kind changes nothing); the poll result is exactly the tally of the recorded votes (first vote of a voter sticks); "
+            "state Leader is entered only from poll on Won",
         ],
         "undecided": [
             "leader completeness (first sentence): needs the cluster-wide induction over all schedules",
-            "the role handlers step_leader / step_follower / step_candidate / hup are ASSUMED not to emit grants (their bodies are not under contract in this revision)",
+            "step_leader / step_follower are ASSUMED not to emit grants and to ignore stray vote responses (their bodies are not under contract in this revision)",
         ],
         "assumptions": ["raft.rs functions are verified in mode S (fatal!/panic! abort): clauses hold on every normal return",
                         "assumed handler contract step_frame (term monotone, one vote per term, msgs append-only, no grants)"],
@@ -194,8 +197,10 @@ PROPS = {
             "lease rule: a (pre-)vote request with a higher term and without the transfer context, arriving while check_quorum && a leader is known && "
             "election_elapsed < election_timeout, returns Ok with NO field of the node changed and no message pushed",
             "become_pre_candidate keeps term and vote",
+            "a granted pre-vote response never makes a node adopt the (future) term it carries: the term changes only for a pre-candidate (by winning); "
+            "poll: unless the result is Won, term and vote are unchanged; campaign(PRE_ELECTION) that leaves the node a pre-candidate keeps term and vote",
         ],
-        "undecided": ["non-disruption of a lock-step majority over all schedules of the minority (second sentence)"],
+        "undecided": ["non-disruption of a lock-step majority over all schedules of the minority (second sentence)", "step_leader / step_follower are assumed to ignore pre-vote responses"],
         "assumptions": ["mode S", "assumed handler contract step_frame"],
     },
     "C07": {
@@ -273,5 +278,23 @@ PROPS = {
         "undecided": ["equality of application state; 'compaction changes no other guarantee'", "the configuration rebuilt from the snapshot (confchange::restore, post_conf_change) is an assumed contract in this revision",
                       "handle_snapshot_status / handle_append_response are not under contract in this revision"],
         "assumptions": ["mode S for raft.rs", "R9: the iterator chain membership test of Raft::restore; R10: its untested tail"],
+    },
+    "C09": {
+        "title": "Membership changes: one at a time, config is a function of applied log",
+        "modules": ["top", "prelude", "pb", "inflights", "progress", "quorum", "tracker", "log_unstable", "storage_trait", "raft_log", "raft"],
+        "body": {"S": ["raft"]},
+        "modes": ["S"],
+        "claim": "PARTIAL (election-side clauses only in this revision: (b) and (d) of DESIGN.md section 5/C09)",
+        "decided": [
+            "hup: a leader ignores it; no campaign starts while a committed membership change is unapplied (the range (applied or pending snapshot, committed] holds a "
+            "conf-change entry): the node is left completely unchanged",
+            "tick_election never steps MsgHup when the node is not promotable (only election_elapsed changes) or before the randomized timeout",
+            "become_leader conservatively sets pending_conf_index to the last index of its log and appends exactly one entry of its own term",
+        ],
+        "undecided": [
+            "the proposal filter of step_leader/MsgPropose, commit_apply's auto-leave proposal, apply_conf_change/post_conf_change (promotable = voter) and the function-of-applied-log statement are not under contract in this revision",
+            "'a leader's log never holds more than one unapplied membership entry' across leader changes (cluster-level)",
+        ],
+        "assumptions": ["mode S", "has_unapplied_conf_changes is an ASSUMED contract (RaftLog::scan takes an FnMut): it reports exactly whether the range holds a conf-change entry"],
     },
 }
